@@ -77,6 +77,14 @@ class Snapshot:
             return c
         if isinstance(v, tuple):
             return tuple(self.clone(x) for x in v)
+        if v.__class__.__name__ == 'BytesIOVal':
+            if id(v) in self.memo:
+                return self.memo[id(v)]
+            c = v.__class__(None, v.buf)
+            c.pos = v.pos
+            self.memo[id(v)] = c
+            self.live[id(v)] = v
+            return c
         if isinstance(v, SymObj):
             return SymObj(v.ref, v.cls, SnapState(self))
         return v
